@@ -321,3 +321,6 @@ fn dead_yamux_stream() -> tokio_util::compat::Compat<crate::yamux::Stream> {
 // Re-exports of the crate-private per-connection protocol set and the event types it sends.
 pub use super::protocol_set::{InnerTransportEvent, ProtocolCommand, ProtocolSet};
 pub use crate::transport::manager::{ProtocolContext, TransportManagerEvent};
+
+// A `TransportService` fed by the external harness (Kademlia event-loop hooks).
+pub use super::transport_service::verif::{VerifConnection, VerifServiceInput};
